@@ -5,9 +5,14 @@
 package astra
 
 import (
+	"crypto/tls"
 	"crypto/x509"
+	"net/http"
 	"time"
 )
+
+var _ *tls.Config
+var _ *http.Transport
 
 var _ *x509.CertPool // contracts name types of crypto/x509
 var _ time.Time
@@ -95,6 +100,58 @@ var _ time.Time
 //@   after x509.CertPool.AppendCertsFromPEM#1 set $lbAppended = result; $lbPool = arg0
 //@   after tls.X509KeyPair#1 set $lbPairOK = (result1 == nil)
 //@   ensures refuses-bad-parts: result1 == nil ==> $lbAppended && $lbPairOK
-//@   ensures config: result1 == nil ==> result0 != nil && result0.TLSConfig != nil && result0.TLSConfig.RootCAs == $lbPool && len(result0.TLSConfig.Certificates) == 1 && result0.TLSConfig.ServerName == result0.Host
+//@   ensures config: result1 == nil ==> result0 != nil && result0.TLSConfig != nil && result0.TLSConfig.RootCAs == $lbPool && len(result0.TLSConfig.Certificates) == 1 && result0.TLSConfig.ServerName == result0.Host && !result0.TLSConfig.InsecureSkipVerify && result0.TLSConfig.VerifyPeerCertificate == nil
 //@   ensures result1 != nil ==> result0 == nil
 //@   modifies nothing
+
+// C19: "the proxy presents ... the node's host id (or contact point) as SNI". An endpoint made for a
+// row of system.local / system.peers carries a TLS configuration made by copyTLSConfig from this
+// resolver's bundle with the textual form of that row's host_id as server name, and is reached
+// through the SNI proxy address learnt from the metadata service.
+//@ func astra.astraResolver.NewEndpoint [C19, C17]
+//@   local $neBundle *Bundle = nil
+//@   local $neName string = ""
+//@   local $neCfg *tls.Config = nil
+//@   local $neId string = ""
+//@   local $neCopied bool = false
+//@   requires r != nil && r.mu != nil && r.bundle != nil && r.bundle.TLSConfig != nil && rowOK(row)
+//@   after primitive.UUID.String#1 set $neId = result
+//@   before astra.copyTLSConfig#1 set $neBundle = arg0; $neName = arg1
+//@   after astra.copyTLSConfig#1 set $neCfg = result; $neCopied = true
+//@   ensures sni-is-host-id: result1 == nil ==> $neCopied && $neBundle == r.bundle && $neName == $neId
+//@   ensures endpoint: result1 == nil ==> typeis(result0, *astraEndpoint) && as(result0, *astraEndpoint) != nil && as(result0, *astraEndpoint).tlsConfig == $neCfg && $neCfg != nil
+//@   ensures result1 != nil ==> result0 == nil
+//@   modifies r.mu.$locked
+
+//@ func astra.astraEndpoint.TLSConfig [C19]
+//@   ensures result == a.tlsConfig
+//@   modifies nothing
+
+//@ func astra.readAllWithTimeout
+//@   trusted
+//@   modifies nothing
+
+// C19, metadata service: the HTTPS client that fetches the metadata verifies the server the standard
+// way (verification not switched off, no callback of its own) against the bundle's roots for the
+// bundle's server name and presents the bundle's client certificate: its TLS configuration is a
+// clone of the bundle's. Every contact point becomes an endpoint whose TLS configuration is
+// copyTLSConfig(bundle, that contact point) - the contact point is the SNI name.
+//@ loop astra.astraResolver.Resolve #1
+//@   invariant $rsAllFromBundle && $rsCopies == rangeindex + 1 && len(endpoints) == rangeindex + 1 && metadata != nil
+
+//@ func astra.astraResolver.Resolve [C19]
+//@   local $rsAsked bool = false
+//@   local $rsSkip bool = false
+//@   local $rsRoots *x509.CertPool = nil
+//@   local $rsName string = ""
+//@   local $rsCerts []tls.Certificate = nil
+//@   local $rsCallback bool = false
+//@   local $rsAllFromBundle bool = true
+//@   local $rsCopies int = 0
+//@   requires r != nil && r.mu != nil && r.bundle != nil && r.bundle.TLSConfig != nil
+//@   before http.Client.Do#1 set $rsAsked = true; $rsSkip = as(arg0.Transport, *http.Transport).TLSClientConfig.InsecureSkipVerify; $rsRoots = as(arg0.Transport, *http.Transport).TLSClientConfig.RootCAs; $rsName = as(arg0.Transport, *http.Transport).TLSClientConfig.ServerName; $rsCerts = as(arg0.Transport, *http.Transport).TLSClientConfig.Certificates; $rsCallback = (as(arg0.Transport, *http.Transport).TLSClientConfig.VerifyPeerCertificate != nil)
+//@   before astra.copyTLSConfig#* set $rsAllFromBundle = $rsAllFromBundle && arg0 == r.bundle && arg1 == metadata.ContactInfo.ContactPoints[rangeindex]; $rsCopies = $rsCopies + 1
+//@   ensures metadata-service-verified: $rsAsked ==> $rsSkip == old(r.bundle.TLSConfig.InsecureSkipVerify) && $rsRoots == old(r.bundle.TLSConfig.RootCAs) && $rsName == old(r.bundle.TLSConfig.ServerName) && $rsCerts == old(r.bundle.TLSConfig.Certificates) && $rsCallback == (old(r.bundle.TLSConfig.VerifyPeerCertificate) != nil)
+//@   ensures asked-before-answering: result1 == nil ==> $rsAsked
+//@   ensures contact-points-as-sni: result1 == nil ==> $rsAllFromBundle && $rsCopies == len(result0)
+//@   modifies *
